@@ -45,3 +45,8 @@ meta=json.load(open(sys.argv[1]))
 meta.update({"confirmed":sys.argv[3]=="yes","confirmation":{"demo_without_change_exit":int(sys.argv[4]),"existing_suite_with_change_exit":int(sys.argv[5]),"demo_with_change_exit":int(sys.argv[6]),"race_flag":sys.argv[8],"how":"tools/seeded.sh: scratch git worktree of /repo HEAD; go1.24.0; demo run before and after `git apply patch.diff`; existing suite run with the change"},"checks_run":json.loads(sys.argv[7])})
 json.dump(meta,open(sys.argv[2],"w"),indent=1)
 PY
+# keep one (the smallest) replay file per seeded change
+if [ -d "$dest/replays" ]; then
+  keep=$(ls -S "$dest/replays"/*.json 2>/dev/null | tail -1)
+  for f in "$dest/replays"/*.json; do [ "$f" = "$keep" ] || rm -f "$f"; done
+fi
